@@ -59,25 +59,25 @@ type Violation struct {
 
 // Shard is what one unit process reports.
 type Shard struct {
-	Property    string         `json:"property"`
-	Unit        string         `json:"unit"`
-	Tier        string         `json:"tier"`
-	Seed        int64          `json:"seed"`
-	ShardN      int            `json:"shard"`
-	Shards      int            `json:"shards"`
-	Evaluations int64          `json:"evaluations"`
-	Nontrivial  int64          `json:"nontrivial"` // distinct within this process (hashed + counted)
-	Counted     int64          `json:"counted"`    // the part of Nontrivial that was counted without hashing
-	HashFile    string         `json:"hash_file,omitempty"`
-	Disjoint    bool           `json:"disjoint"` // this shard's non-trivial cases are disjoint from other shards by construction
+	Property    string           `json:"property"`
+	Unit        string           `json:"unit"`
+	Tier        string           `json:"tier"`
+	Seed        int64            `json:"seed"`
+	ShardN      int              `json:"shard"`
+	Shards      int              `json:"shards"`
+	Evaluations int64            `json:"evaluations"`
+	Nontrivial  int64            `json:"nontrivial"` // distinct within this process (hashed + counted)
+	Counted     int64            `json:"counted"`    // the part of Nontrivial that was counted without hashing
+	HashFile    string           `json:"hash_file,omitempty"`
+	Disjoint    bool             `json:"disjoint"` // this shard's non-trivial cases are disjoint from other shards by construction
 	Classes     map[string]int64 `json:"classes"`
-	Samples     []any          `json:"samples"`
-	Violations  []Violation    `json:"violations"`
-	Known       []string       `json:"known"` // KNOWN-FINDING lines (without the prefix)
-	Exhaustive  map[string]bool `json:"exhaustive,omitempty"`
-	Notes       []string       `json:"notes,omitempty"`
-	Infra       []string       `json:"infra,omitempty"` // harness-level trouble (maps to exit 2)
-	Completed   bool           `json:"completed"`
+	Samples     []any            `json:"samples"`
+	Violations  []Violation      `json:"violations"`
+	Known       []string         `json:"known"` // KNOWN-FINDING lines (without the prefix)
+	Exhaustive  map[string]bool  `json:"exhaustive,omitempty"`
+	Notes       []string         `json:"notes,omitempty"`
+	Infra       []string         `json:"infra,omitempty"` // harness-level trouble (maps to exit 2)
+	Completed   bool             `json:"completed"`
 }
 
 // Rec is the per-process recorder.
